@@ -1,7 +1,6 @@
 package parse
 
 import (
-	"bufio"
 	"strings"
 )
 
@@ -11,9 +10,8 @@ const (
 )
 
 func SettingLines(comment string) (lines []string) {
-	scanner := bufio.NewScanner(strings.NewReader(comment))
-	for scanner.Scan() {
-		line := strings.TrimSpace(scanner.Text())
+	for _, raw := range strings.Split(comment, "\n") {
+		line := strings.TrimSpace(raw)
 		if strings.HasPrefix(line, Prefix+Delimiter) {
 			line := strings.TrimPrefix(line, Prefix+Delimiter)
 			lines = append(lines, line)
